@@ -24,7 +24,6 @@ import (
 	"cosmossdk.io/errors"
 	"github.com/circlefin/noble-cctp/x/cctp/types"
 	sdk "github.com/cosmos/cosmos-sdk/types"
-	"github.com/ethereum/go-ethereum/crypto"
 )
 
 func (k msgServer) ReplaceDepositForBurn(goCtx context.Context, msg *types.MsgReplaceDepositForBurn) (*types.MsgReplaceDepositForBurnResponse, error) {
@@ -91,7 +90,7 @@ func (k msgServer) ReplaceDepositForBurn(goCtx context.Context, msg *types.MsgRe
 
 	event := types.DepositForBurn{
 		Nonce:                     originalMessage.Nonce,
-		BurnToken:                 hex.EncodeToString(crypto.Keccak256(burnMessage.BurnToken)),
+		BurnToken:                 hex.EncodeToString(burnMessage.BurnToken),
 		Amount:                    burnMessage.Amount,
 		Depositor:                 msg.From,
 		MintRecipient:             msg.NewMintRecipient,
